@@ -209,7 +209,9 @@ def run(prop, a, seed, t0):
         path = os.path.join(replay_dir, safe(name) + ".json")
         json.dump(payload, open(path, "w", encoding="utf-8"), indent=1, ensure_ascii=False, default=str)
         rel = os.path.relpath(path, ROOT) if path.startswith(ROOT) else path
-        out_lines.append(f"VIOLATION property={prop.id} replay={rel}" + ("" if found_input else " no-failing-input-found"))
+        line = f"VIOLATION property={prop.id} replay={rel}" + ("" if found_input else " no-failing-input-found")
+        if line not in out_lines:
+            out_lines.append(line)
         n_viol += 1
 
     replay_budget = time.time() + 360  # all native replays of one run share this budget
